@@ -144,13 +144,19 @@ def one_request(stub: bytes, vt: bool, sig_len: int, sign: bool, flavour: str, r
         resp = e
     obs = dict(srv.obs or {})
     wraps = [e for e in log if e["ev"] == "wrap"]
-    if len(wraps) != 1 or not obs:
-        raise MachineryError(f"expected exactly one wrap call and one request, got {len(wraps)} / {bool(obs)}")
-    w = wraps[0]
-    lay_plain = srv.request_plain
+    if not obs:
+        raise MachineryError(f"no request reached the scripted server ({len(wraps)} wrap calls; client outcome {resp!r})")
+    obs["wrapCalls"] = len(wraps)
+    # a request that reached the peer without exactly one pass through the security context was not sealed as specified:
+    # recorded as such (no region lengths / modes) and judged by TraceFraming, not a failure of the machinery
+    w = wraps[0] if len(wraps) == 1 and len(wraps[0].get("data", [])) >= 3 and len(wraps[0].get("lens", [])) >= 3 else \
+        {"types": [], "lens": [-1, -1, -1, -1], "data": [b"", None, b""]}
+    if w["data"][1] is None:
+        obs["wrapCalls"] = -1 if len(wraps) == 1 else len(wraps)
+    lay_plain = srv.request_plain or b""
     obs["wrapModes"] = [MODES.get(x, str(x)) for x in w["types"]]
     obs["wrapLens"] = w["lens"]
-    obs["bodyEq"] = (w["data"][1] or b"") == lay_plain
+    obs["bodyEq"] = w["data"][1] is not None and (w["data"][1] or b"") == lay_plain
     obs["hdrEq"] = (w["data"][0] or b"") == srv.request_wire[:24]
     obs["trEq"] = (w["data"][2] or b"") == srv.request_wire[obs["trailerOff"] : obs["trailerOff"] + 8]
     obs["stubEq"] = lay_plain[: len(stub)] == stub
@@ -194,12 +200,14 @@ def request_sequence(stubs: list[bytes], vts: list[bool], sig_len: int, sign: bo
         pass
     wraps = [e for e in log if e["ev"] == "wrap"]
     for k, (obs, wire, plain) in enumerate(srv.all_obs):
-        if k >= len(wraps):
-            break
-        w, stub, vt = wraps[k], stubs[k], vts[k]
+        stub, vt = stubs[k], vts[k]
+        aligned = len(wraps) == len(srv.all_obs) and len(wraps[k].get("data", [])) >= 3 and len(wraps[k].get("lens", [])) >= 3
+        w = wraps[k] if aligned else {"types": [], "lens": [-1, -1, -1, -1], "data": [b"", None, b""]}
+        obs["wrapCalls"] = 1 if aligned else 0
+        plain = plain or b""
         obs["wrapModes"] = [MODES.get(x, str(x)) for x in w["types"]]
         obs["wrapLens"] = w["lens"]
-        obs["bodyEq"] = (w["data"][1] or b"") == plain
+        obs["bodyEq"] = w["data"][1] is not None and (w["data"][1] or b"") == plain
         obs["hdrEq"] = (w["data"][0] or b"") == wire[:24]
         obs["trEq"] = (w["data"][2] or b"") == wire[obs["trailerOff"] : obs["trailerOff"] + 8]
         obs["stubEq"] = plain[: len(stub)] == stub
